@@ -113,6 +113,20 @@ func newEnv() *Env {
 	return &Env{App: a, Ctx: ctx, ValPub: valPub}
 }
 
+var baseEnv *Env
+
+// forkEnv gives every case its own copy-on-write view of one freshly
+// initialised application: nothing a case writes is ever flushed to the shared
+// deliver state, so cases are independent; constructing the app once makes the
+// run two orders of magnitude faster.
+func forkEnv() *Env {
+	if baseEnv == nil {
+		baseEnv = newEnv()
+	}
+	cctx, _ := baseEnv.Ctx.CacheContext()
+	return &Env{App: baseEnv.App, Ctx: cctx, ValPub: baseEnv.ValPub}
+}
+
 // runMsg executes one message the way baseapp.runMsgs does: through the
 // application's message router on a cached multistore that is written back only
 // when the handler succeeds.
